@@ -23,7 +23,11 @@ JudgeRun(e) ==
       d2 == DfltWithUid(env.dflt, e.afteruid) IN
   IF ~e.ran /\ e.failed /\ wrote /\ effs["url"] # Null
   THEN << <<"writing-run-completed " \o e.exc, FALSE>> >>     \* a --write run with a usable configuration must not fail
-  ELSE IF ~e.ran THEN <<>>   \* ofxget refused to run (e.g. no URL from any source): nothing to judge
+  ELSE IF ~e.ran
+  THEN \* ofxget refused to run or failed (e.g. no URL from any source): only "nothing stored" is judged for a run that was
+       \* not to write at all
+       (IF ~wrote THEN << <<IF e.dry THEN "dry-run-stores-nothing (failed run)" ELSE "no-write-stores-nothing (failed run)",
+                            e.after = file /\ e.afteruid = uid>> >> ELSE <<>>)
   ELSE
   [i \in 1..Len(env.opts) |->
      <<"precedence " \o env.opts[i], e.eff[env.opts[i]] = effs[env.opts[i]]>>] \o
